@@ -7,8 +7,8 @@ import re
 
 V = os.path.dirname(os.path.dirname(os.path.abspath(__file__)))
 MAIN = {
- "C01": "C01_roundtrip, C01_loadBytes_saveBytes, C01_resave, C01_deepEq_both, C01_wfir_iff, C01_version_rejected, C01_aux_values; C01_link_accepts, C01_link_shape (value-level reader = graph-level loader on accepted messages)",
- "C02": "C02_schema_matches_model, C02_enum_bijection, C02_version_magic (tables); C02_header, C02_has_address, C02_payload_oneof, C02_label_presence, C02_vertices (writer); C02_reader_exact (toMsg v = normMsg m), C02_reader_accepts, C02_accepts_iff_closed, C02_toMsg_closed, C02_ref_uuid_16, C02_forward_reference_rejected",
+ "C01": "C01_roundtrip, C01_loadBytes_saveBytes, C01_resave, C01_deepEq_both, C01_wfir_iff, C01_version_rejected, C01_aux_values; C01_link_accepts, C01_link_shape (value-level reader = graph-level loader on accepted messages); on files, protobuf wire format included (model W): parseMIR_serMIR, C01_roundtrip_bytes, C01_resave_bytes_wire, decodeW_encodeW, decVarint_encVarint, serMIR_injective",
+ "C02": "C02_schema_matches_model, C02_enum_bijection, C02_version_magic (tables); C02_header, C02_has_address, C02_payload_oneof, C02_label_presence, C02_vertices (writer); C02_reader_exact (toMsg v = normMsg m), C02_reader_accepts, C02_accepts_iff_closed, C02_toMsg_closed, C02_ref_uuid_16, C02_forward_reference_rejected; wire level: C01_fno_table (field numbers = schema, ascending, legal), parseXW_wX for each of the 15 message types",
  "C03": "C03_step_fine, C03_no_cache_keyerror_fine, C03_history_full, C03_lookup_full, C03_lookup_scan, C03_no_leak, C03_history_no_keyerror, C03_history_strict, C03_runStrict_total, C03_ixor_counterexample; load clause: C17_load_coherent', C17_load_exact_nodup",
  "C04": "C04_step, C04_history, C04_history_strict, C04_one_parent, C04_move_*, C04_frame, C04_reachable_iff, C04_ir*/mod*/sec* (aggregates)",
  "C05": "C05_on_offset, C05_at_offset, C05_on, C05_at, C05_section_on/_at (+_nodup, _sound), C05_scope_*, C05_section_at_inside, C05_section_on_part_inside, C05_kind_* (code_/data_ variants)",
@@ -23,7 +23,7 @@ MAIN = {
  "C14": "C14_untouched(_generations, _history, _state), C14_current(_full, _history), C14_retype, C14_raw_monotone, C14_touched_generation, C14_read_generations, C14_rewritten_iff (extent of K4), C14_unknown_top_head, C14_lazy_trichotomy, C14_unknown_counterexample",
  "C15": "C15_complete, C15_sound, C15_iff",
  "C16": "C16_*_content (every set and list operation), C16_extend_content_dups, C16_builtin_errors_pure, C16_error_kinds, C16_setItem_outside_iff, C16_outside_iff_K1, C16_never_raises, C16_setters_never_raise, C16_history_skips_only_builtin, C16_delSlice_content, C16_setSlice_content_*; return values and non-mutating operations: C16_stepR_state, C16_listPop_returns, C16_setPop_returns, C16_inplace_returns_same, C16_nm*_mem / _nodup / _iff, C16_nmIndex_*, C16_nmSlice_spec, C16_nm_frame; C13_* for the mapping",
- "C17": "C17_header_magic/_version/_short, C17_version_field, C17_accepts_saved, C17_accepted_wf_partial, C17_accepted_refs, C17_accepted_enums, C17_accepted_bytes_inv; C17_load_coherent (every message, duplicated UUIDs included), C17_load_all_attached, C17_load_triple_uuid_*",
+ "C17": "C17_header_magic/_version/_short, C17_version_field, C17_accepts_saved, C17_accepted_wf_partial, C17_accepted_refs, C17_accepted_enums, C17_accepted_bytes_inv; C17_load_coherent (every message, duplicated UUIDs included), C17_load_all_attached, C17_load_triple_uuid_*; files with the concrete wire model: C17_accepts_saved_file, C17_accepted_file_inv, C17_malformed_wire_rejected",
  "C18": "C18_iff, C18_symm, C18_refl, C18_refl_iff, C18_order, C18_perm_*, C18_field_* (35), C18_aux_values_ignored; nodes: C18_node_symbol/_expr/_interval/_section/_module (+_symm, _refl, _of_ir)",
  "C19": "C19_ctor_rejects, C19_ctor_ok, C19_setInit_*, C19_setSize_inv, C19_step_inv (incl. whole-contents assignment), C19_history, C19_saveload_iff, C19_contents, C19_contains_*",
 }
